@@ -72,6 +72,14 @@ inductive BinOp | add | sub | mul | div | idiv | mod
 inductive UnOp | neg | pos | abs | floor | ceiling | round (p : Int) | rhe (p : Int)
   deriving DecidableEq, Repr, Inhabited
 
+/-- XPath 3.1 B.2 (operator mapping): type of `A op B` for operand types `ta`, `tb`:
+the promoted type, except `idiv` (always xs:integer) and `div` on two integers (xs:decimal) -/
+def resultTy (op : BinOp) (ta tb : Ty) : Ty :=
+  match op with
+  | .idiv => .integer
+  | .div => if promote ta tb = .integer then .decimal else promote ta tb
+  | _ => promote ta tb
+
 /-! ### exact rational helpers -/
 
 /-- truncation toward zero (F&O op:numeric-integer-divide: "truncating") -/
